@@ -449,6 +449,9 @@ func runC10(r *Report, tier string) {
 			r.ob("R10.3", form+":sign-verify-agree", nil, nil, "Sign and Verify of the "+form+" form build the same structure").check(m[form+":sign"] != "" && m[form+":sign"] == m[form+":verify"], "same builder arguments", fmt.Sprintf("sign side %q vs verify side %q", truncate(m[form+":sign"], 120), truncate(m[form+":verify"], 120)))
 		}
 	}
+	// the protected fields pass through the head normaliser: its own rule
+	r.rule("R02.3", "(shared with C02) the bstr head normaliser returns its argument unchanged only for shortest-form heads and otherwise the same content under the shortest head.")
+	checkHeadNormalizer(r, "R02.3")
 }
 
 // builderCallAt: the call term F(...) whose result is the content at site s.
